@@ -43,6 +43,15 @@ CHECKS["C09"] = dict(
           "four (partial)."),
     design="6/C09", technique="Coq proof (counting lemmas over key lists) + exhaustive small-complex correspondence via vm_compute")
 
+CHECKS["C10"] = dict(
+    text=("Theorems about the Gallina model of orient_ (half-edge table, unique-with-counts test, lexsort pairing, signed neighbour "
+          "matrix, fuelled flood incl. re-seeding per component, flips, volume test): for every input the result keeps triangle order and "
+          "vertex sets; the return value is the number of triangles whose winding changed; a global flip negates the enclosed volume and "
+          "the returned closed oriented mesh has volume >= 0; an edge in >= 3 triangles gives ValueError. Termination, 'is_oriented "
+          "afterwards' and idempotence are decided by correspondence (model = implementation on every generated flip pattern, both "
+          "calls) plus brute-force oracles; no theorem for them yet (partial)."),
+    design="6/C10", technique="Coq proof (structural + counting lemmas, ring) + vm_compute correspondence over flip patterns")
+
 NOT_YET = {}
 
 
